@@ -56,6 +56,11 @@ func c08Store(c *Ctx) {
 				if e.Kind == m.sink && isStoreMap(e.Args[0], m.table) {
 					if e.Args[1].Key() == want.Key() {
 						acted = true
+						// a rewrite needs an existing entry: writing back the zero value of a missing one
+						// resurrects a deleted token with a nil requester
+						if m.sink == "mapupdate" && !p.HoldsAt(e, atomB(call("haskey", field(recv, m.table), want)), true) {
+							ok, w, why = false, p, m.table+"["+m.index+"[id]] is written although the entry is not known to exist (a deleted token would be resurrected as a zero record)"
+						}
 					} else {
 						ok, w, why = false, p, m.table+" is modified under key "+clip(e.Args[1].Pretty(), 70)+", not under the signature recorded for the request id"
 					}
